@@ -39,9 +39,21 @@ type c01StoreDecl struct {
 	name string
 	syms []c01SymDecl
 	maps []c01MapDecl
+	// child stores (c01_variant.go): index of the parent store (root stores: 0 = none, see isChild), the entity
+	// path below the parent's entity bucket, Extended()
+	isChild bool
+	parent  int
+	path    []string
+	ext     bool
 }
 
-var c01Schema = []c01StoreDecl{
+// c01Schema: what every store of the CURRENT schema variant exposes, as symbols over the root stores' entity
+// buckets (child stores: own symbols with the child's entity path in front + the symbols granted by the parent).
+// Generators and the dataset writer read it; c01UseVariant switches it.
+var c01Schema = c01SchemaBase
+
+// c01SchemaBase: the schema all filters are written for (symbol NAMES never change between variants)
+var c01SchemaBase = []c01StoreDecl{
 	{name: "people", syms: []c01SymDecl{
 		{kind: "id", name: "id", ty: 's', linked: -1},
 		{kind: "fld", name: "name", ty: 's', key: "name", linked: -1, gen: "str"},
@@ -97,15 +109,19 @@ func c01NodeType(ty byte) ast.NodeType {
 	}
 }
 
-// c01BuildStores defines the stores of the schema under the given root bucket through the public API
-func c01BuildStores(base string) []*boltz.BaseStore[boltz.Entity] {
-	stores := make([]*boltz.BaseStore[boltz.Entity], len(c01Schema))
-	for i, sd := range c01Schema {
-		def := (&boltz.StoreDefinition[boltz.Entity]{EntityType: sd.name}).WithBasePath(base)
-		stores[i] = boltz.NewBaseStore(*def)
+// c01BuildStores defines the stores of a schema variant under the given root bucket through the public API:
+// root stores first, then every child store (StoreDefinition.Parent, plain or Extended()), parent.GrantSymbols(child),
+// then the child's own symbols
+func c01BuildStores(base string, raw []c01StoreDecl) []*boltz.BaseStore[boltz.Entity] {
+	stores := make([]*boltz.BaseStore[boltz.Entity], len(raw))
+	for i, sd := range raw {
+		if !sd.isChild {
+			def := (&boltz.StoreDefinition[boltz.Entity]{EntityType: sd.name}).WithBasePath(base)
+			stores[i] = boltz.NewBaseStore(*def)
+		}
 	}
-	for i, sd := range c01Schema {
-		st := stores[i]
+	define := func(i int) {
+		sd, st := raw[i], stores[i]
 		for _, s := range sd.syms {
 			switch s.kind {
 			case "id":
@@ -132,15 +148,36 @@ func c01BuildStores(base string) []*boltz.BaseStore[boltz.Entity] {
 			st.AddMapSymbol(m.name, c01NodeType(m.ty), m.key, m.prefix...)
 		}
 	}
+	for i, sd := range raw {
+		if !sd.isChild {
+			define(i)
+		}
+	}
 	// a link collection (people.places <-> places.visitors), as the entity stores of the suite define them
 	stores[0].AddLinkCollection(stores[0].GetSymbol("places"), stores[1].GetSymbol("visitors"))
+	for i, sd := range raw {
+		if sd.isChild {
+			def := boltz.StoreDefinition[boltz.Entity]{EntityType: sd.name, BasePath: append([]string{}, sd.path...), Parent: stores[sd.parent],
+				ParentMapper: func(e boltz.Entity) boltz.Entity { return e }}
+			stores[i] = boltz.NewBaseStore(def)
+			if sd.ext {
+				stores[i].Extended()
+			}
+			stores[sd.parent].GrantSymbols(stores[i])
+			define(i)
+		}
+	}
 	return stores
 }
 
+// c01SchemaLine: the S line of the current variant.  Child stores are listed with their OWN symbols; the trailer
+// H <n> (<child> <parent> <extended> <npath> <path..>)* names them (the model derives what they expose and contain:
+// child_decl / child_db in Ast/ChildStore.v); V <name> lets a replay rebuild the stores.
 func c01SchemaLine() string {
+	raw := c01Cur.raw
 	var b strings.Builder
-	fmt.Fprintf(&b, "S %d", len(c01Schema))
-	for _, sd := range c01Schema {
+	fmt.Fprintf(&b, "S %d", len(raw))
+	for _, sd := range raw {
 		fmt.Fprintf(&b, " %d", len(sd.syms))
 		for _, s := range sd.syms {
 			lk := "-"
@@ -168,6 +205,26 @@ func c01SchemaLine() string {
 			}
 			fmt.Fprintf(&b, " %s", hxs(m.key))
 		}
+	}
+	nchild := 0
+	for _, sd := range raw {
+		if sd.isChild {
+			nchild++
+		}
+	}
+	if nchild > 0 {
+		fmt.Fprintf(&b, " H %d", nchild)
+		for i, sd := range raw {
+			if sd.isChild {
+				fmt.Fprintf(&b, " %d %d %s %d", i, sd.parent, c01Bool(sd.ext), len(sd.path))
+				for _, p := range sd.path {
+					fmt.Fprintf(&b, " %s", hxs(p))
+				}
+			}
+		}
+	}
+	if c01Cur.name != "base" {
+		fmt.Fprintf(&b, " V %s", c01Cur.name)
 	}
 	return b.String()
 }
@@ -260,7 +317,7 @@ var c01Zones = []*time.Location{time.UTC, time.FixedZone("p5", 5*3600), time.Fix
 func c01Write(db *bbolt.DB, base string, d *c01Dataset) error {
 	return db.Update(func(tx *bbolt.Tx) error {
 		for si, ents := range d.stores {
-			storeBucket := boltz.GetOrCreatePath(tx, base, c01Schema[si].name)
+			storeBucket := boltz.GetOrCreatePath(tx, base, c01Cur.raw[si].name)
 			if storeBucket.HasError() {
 				return storeBucket.GetError()
 			}
